@@ -61,6 +61,7 @@
 
 // Modified to implement C code by Dave Benson.
 
+#include <cmath>
 #include <cstdint>
 #include <memory>
 #include <set>
@@ -99,6 +100,9 @@ static std::string FloatingLiteral(const std::string &s) {
 
 std::string SimpleFtoa(float f) {
   char buf[100];
+  /* printf gives "inf" / "nan", which are not C: use the <math.h> macros (the header includes it when needed) */
+  if (std::isnan(f)) return "NAN";
+  if (std::isinf(f)) return f < 0 ? "-INFINITY" : "INFINITY";
   /* FLT_DIG digits do not identify a float; FLT_DIG + 3 (= 9) always do */
   snprintf(buf,sizeof(buf),"%.*g", FLT_DIG + 3, f);
   buf[sizeof(buf)-1] = 0;		/* should NOT be necessary */
@@ -107,6 +111,8 @@ std::string SimpleFtoa(float f) {
 
 std::string SimpleDtoa(double d) {
   char buf[100];
+  if (std::isnan(d)) return "NAN";
+  if (std::isinf(d)) return d < 0 ? "-INFINITY" : "INFINITY";
   /* DBL_DIG digits do not identify a double; DBL_DIG + 2 (= 17) always do */
   snprintf(buf,sizeof(buf),"%.*g", DBL_DIG + 2, d);
   buf[sizeof(buf)-1] = 0;		/* should NOT be necessary */
